@@ -2,6 +2,8 @@ import SkyllhModel.Proto
 import SkyllhModel.Model.Store
 import SkyllhModel.Model.StoreIO
 import SkyllhModel.Model.PseudoData
+import SkyllhModel.Model.PseudoDataR7
+import SkyllhModel.Generated.C07
 open Proto Store StoreIO Pseudo
 
 /-  stateful line protocol (state = heap-layer store with roles + plain tables in lock step):
@@ -10,6 +12,9 @@ open Proto Store StoreIO Pseudo
       genComp <keep> <scr> <sets> <rates> <presel> <draw> <expFields> | genSigMC <ev> <post> <empty> <fill> | genSig <cols> | merge b s
       initTrial e <pre> <sel> <idx> <stat> | unblind <pre> <sel> <idx> <stat> | unblindAdopt … | evaluate <fields>
     <sel> = N | i:<ints> | m:<bools>;  <idx> = N | <name>:<perm>;  cols = name:dt:vals+…
+    round 7 (GOp7, exception semantics):  scramble <h> <copy 0|1> <scr|N> <sets> | fixedBkg <scr> <sets>  (copy flag = Gen.C07.fixedBkgCopy,
+      read from the source) | inject <events|N> <cols|N> | trialBkgSig <b|N> <s|N> <pre> <sel> <idx> <stat> <fields> |
+      defaultRa <deviates>  (uniformRA on the default range read from the source);  their answers carry ret=<1 returned | 0 raised>
     answer:  h=<id|N> cache=<id|N> events=<id|N> errs=<failing container ops> | <heap containers> | <tables>
 -/
 
@@ -62,6 +67,28 @@ def pGOp (toks : List String) : Option GOp :=
   | ["resetCache"] => some .resetCache
   | _ => none
 
+def pOH (s : String) : Option Nat := if s == "N" then none else some (pN s)
+
+def pGOp7 (toks : List String) : Option GOp7 :=
+  match toks with
+  | ["scramble", h, copy, scr, sets] =>
+      if scrOK (pScr scr) (pCols sets) then some (.scramble (pN h) (copy == "1") (pScr scr) ((pCols sets).map (·.2))) else none
+  | ["fixedBkg", scr, sets] =>
+      match pScr scr with
+      | some m => if scrOK (some m) (pCols sets) then some (.fixedBkg Gen.C07.fixedBkgCopy m ((pCols sets).map (·.2))) else none
+      | none => none
+  | ["inject", ev, cols] => some (.inject (pOH ev) (if cols == "N" then none else some (pCols cols)))
+  | ["trialBkgSig", b, s, pre, sel, idx, stat, fields] => some (.trialBkgSig (pOH b) (pOH s) (pCfg pre sel idx stat) (pCols fields))
+  | _ => none
+
+/-- the operations `runHE` executes (up to and including the one that raises) -/
+def prefixE : St → List Op → List Op
+  | _, [] => []
+  | s, op :: r =>
+    match stepH s op with
+    | (s', .ok _) => op :: prefixE s' r
+    | (_, .error _) => [op]
+
 def fON : Option Nat → String
   | none => "N"
   | some n => toString n
@@ -80,6 +107,15 @@ def countErrs : St → List Op → Nat
   | s, op :: r =>
     let (s', res) := stepH s op
     (match res with | .error _ => 1 | .ok _ => 0) + countErrs s' r
+
+/-- one round-7 call on both layers: new state, handle, returned?, number of failing container operations -/
+def step7 (st1 : DState1) (op : GOp7) : DState1 × Option Nat × Bool × Nat :=
+  let g := st1.1
+  let p := compile7 g.st.conts.length g.roles op
+  let (g', h, ret) := gstep7 g op
+  let executed := if p.raises then [] else prefixE g.st p.first ++ (if ret then p.rest else [])
+  let errs := if ret then countErrs (runHE g.st p.first).1 p.rest else 1
+  ((g', runT st1.2 executed), h, ret, errs)
 
 def dump (g : G) (ts : List Table) : String :=
   s!"{semi (g.st.conts.map (fCont g.st.heap))} | {semi (ts.map fTable)}"
@@ -100,8 +136,40 @@ def answer (st : DState) (line : String) : DState × String :=
   | ["uniformRA", lo, hi, us] =>
     (st, fListD fF ((pList pF us).map (fun u => (uniformRA (pF lo) (pF hi) u : Float))))
   | ["nbkg", n, ms, m] => (st, toString (nBkgSelected (pN n) (pF ms) (pF m)))
+  | ["defaultRa", us] =>
+    let rg : Float × Float := raRangeOf (Gen.C07.defaultRaLo, Gen.C07.defaultRaHi) none
+    (st, fListD fF ((pList pF us).map (fun u => (uniformRA rg.1 rg.2 u : Float))))
   | ["newMethod"] => ((({ st.1.1 with roles := { st.1.1.roles with cache := none } }, st.1.2), st.2), "ok")
   | cmd :: rest =>
+    if cmd == "scramble" || cmd == "fixedBkg" || cmd == "inject" || cmd == "trialBkgSig" then
+      match pGOp7 (cmd :: rest.map (resolve st.2)) with
+      | none => (st, "bad-op")
+      | some op =>
+        let n0 := st.1.1.st.conts.length
+        let (st1', h, ret, errs) := step7 st.1 op
+        let hs' : List Nat × Nat :=
+          match h with
+          | some id => if cmd != "trialBkgSig" && id ≥ n0 then (st.2.1 ++ [id], id) else st.2
+          | none => st.2
+        ((st1', hs'), s!"h={fON h} cache={fON st1'.1.roles.cache} events={fON st1'.1.roles.events} errs={errs} ret={if ret then 1 else 0} | {dump st1'.1 st1'.2}")
+    else if cmd == "doTrial" then
+      match rest with
+      | [scr, sets, sig, pre, sel, idx, stat, fields] =>
+        match pGOp7 ["fixedBkg", scr, sets] with
+        | none => (st, "bad-op")
+        | some bkg =>
+          let sigc := if sig == "N" then none else some (pCols sig)
+          let cfg := pCfg pre sel idx stat
+          -- staged replay on both layers (heap store + plain tables) …
+          let (a1, h1, ok1, e1) := step7 st.1 bkg
+          let (a2, h2, ok2, e2) := if ok1 then step7 a1 (.inject h1 sigc) else (a1, none, false, 0)
+          let (a3, _, ok3, e3) := if ok2 then step7 a2 (.trialBkgSig h2 none cfg (pCols fields)) else (a2, none, false, 0)
+          -- … and the model's own composition `Pseudo.doTrial`
+          let d := doTrial st.1.1 bkg sigc cfg (pCols fields)
+          let same := reprStr d.1 == reprStr a3.1 && d.2 == ok3
+          ((a3, st.2), s!"h=N cache={fON a3.1.roles.cache} events={fON a3.1.roles.events} errs={e1 + e2 + e3} ret={if ok3 then 1 else 0} same={if same then 1 else 0} | {dump a3.1 a3.2}")
+      | _ => (st, "bad-op")
+    else
     let tmp := cmd == "genSigTmp"
     let toks := (if tmp then "genSig" else cmd) :: rest.map (resolve st.2)
     match pGOp toks with
